@@ -27,7 +27,7 @@ import (
 
 // ---- Gallina printers ------------------------------------------------------------------
 
-// byte strings with long runs compressed: ([1;2] ++ rep 65 70000 ++ [3])
+// byte strings with long runs compressed: (cat [[1;2]; (rep 65 70000); [3]])
 func c32B(b []byte) string {
 	if len(b) == 0 {
 		return "[]"
@@ -59,7 +59,12 @@ func c32B(b []byte) string {
 	if len(segs) == 1 && strings.HasPrefix(segs[0], "[") {
 		return segs[0]
 	}
-	return "(" + strings.Join(segs, " ++ ") + ")"
+	for i, sg := range segs {
+		if strings.HasPrefix(sg, "rep ") {
+			segs[i] = "(" + sg + ")"
+		}
+	}
+	return "(cat [" + strings.Join(segs, "; ") + "])"
 }
 
 func c32Params(ps parameter.Parameters) string {
@@ -280,6 +285,7 @@ func (d *c32Driver) decodeCase(k c32Kind, input []byte, origin string) {
 	}
 	d.out.Case(cqApp("Decode", k.coq, c32B(input), o.coq, cqU(o.alloc)), desc,
 		k.name+":decode:"+origin+":"+o.class, o.class == "ok")
+	d.out.w.Flush() // keep what was observed so far if a later input kills the process (fatal out of memory)
 }
 
 // value -> real Marshal -> real decoder
@@ -292,6 +298,7 @@ func (d *c32Driver) roundTrip(k c32Kind, valCoq, valDesc string, wire []byte, or
 		class = forcedClass
 	}
 	d.out.Case(cqApp("RoundTrip", k.coq, valCoq, c32B(wire), o.coq, cqU(o.alloc)), desc, class, true)
+	d.out.w.Flush()
 }
 
 // ---- generators --------------------------------------------------------------------------
